@@ -13,7 +13,7 @@ OPSYM = {"add": "+", "sub": "-", "mul": "*", "div": "/", "mod": "%"}
 
 
 def boundary(signed: bool, small: bool):
-    ks = [1, 2, 7, 8, 15, 16, 31, 32, 33, 53, 62, 63] if small else list(range(1, 64))
+    ks = [1, 2, 7, 8, 15, 16, 29, 30, 31, 32, 33, 53, 60, 61, 62, 63] if small else list(range(1, 64))
     vals = {0, 1, 2, 3, 7, 10}
     for k in ks:
         for d in (-1, 0, 1):
@@ -224,20 +224,23 @@ DBL_SPECIAL = [0.0, -0.0, math.inf, -math.inf, math.nan, 5e-324, -5e-324, 1.7976
 class C01(Prop):
     pid = "C01"
     manifest = dict(
-        technique='Lean 4 theorems over Int for every operand pair (IntOps/UintOps exactness, never-wraps, reflected = direct), model regenerated from celtypes.py by py2lean + bridge theorems; differential correspondence vs. the Lean driver and an independent big-int / IEEE oracle',
-        text='proof: int64/uint64 + - * / % neg are proved exact-or-error for ALL integers (no bound), on definitions regenerated from celtypes.py on every run and proved equal to the model; double division by zero proved at IEEE class level; remaining double arithmetic is host IEEE, compared bit-for-bit',
+        technique='Lean 4 theorems over Int for every operand pair (IntOps/UintOps exactness, never-wraps, reflected = direct) and for every int64 / uint64 / double expression tree, model regenerated from celtypes.py by py2lean (int dialect + float dialect over an abstract host float) + bridge theorems proved by split/omega; differential correspondence vs. the Lean driver and an independent big-int / IEEE oracle',
+        text='proof: int64/uint64 + - * / % neg are proved exact-or-error for ALL integers (no bound) and for all expression trees, on definitions regenerated from celtypes.py on every run and proved equal to the model; every DoubleType operator is proved to be the host binary64 operation on the same operands (for every host float structure), division by zero proved at IEEE class level; the host arithmetic itself is compared bit-for-bit',
         note='Lean kernel; propext/Quot.sound/Classical.choice only; py2lean translator; CPython int semantics modelled by Int.fdiv/fmod; host binary64; lark',
         ref='DESIGN.md §5 C01')
-    lean_targets = ["Cel.Props.C01", "Cel.Bridge.Num"]
+    lean_targets = ["Cel.Props.C01", "Cel.Bridge.Num", "Cel.Bridge.NumD"]
     audit_namespaces = ["Cel.Props.C01", "Cel.Bridge"]
-    gen_names = ["Num"]
+    gen_names = ["Num", "NumD"]
     trusted = ["CPython int arithmetic (`+ - * // % abs`) is modelled by Lean Int (`Int.fdiv/fmod`)",
-               "IEEE-754 binary64 arithmetic of the host for double + - * and / by a non-zero divisor (compared bit-for-bit with Lean's native Float, not proved)",
+               "IEEE-754 binary64 arithmetic of the host (CPython float `+ - * /` by a non-zero divisor, unary minus): abstract in the proofs (`HostFloat`), compared bit-for-bit with Lean's native Float by the correspondence run",
+               "float.__new__(cls, x) keeps every bit of a Python float x; float operands never make float.__op__ return NotImplemented",
                "lark parsing of the generated `a op b` texts"]
-    rule = ("boundary set B={MIN,MAX,0,±1,±2^k,±2^k±1} pairs + random 64-bit pairs + near-overflow products, per operator, "
-            "for int and uint, through the dunder, the reflected dunder and both runners (literals and bound variables); doubles as bit "
-            "patterns incl. ±0, ±inf, NaN, subnormals. non-trivial = distinct case whose exact result is within 2^8 of a range boundary, "
-            "or an error outcome, or a double case involving a zero/inf/NaN operand or result")
+    rule = ("boundary set B={MIN,MAX,0,±1,±2^k,±2^k±1} pairs + random 64-bit pairs + near-overflow products + pairs whose exact result "
+            "misses the range by less than one bit on either side + zero divisors on every path + special-shape divisors + zero results, "
+            "per operator, for int and uint, through the dunder, the reflected dunder and both runners (literals and bound variables); "
+            "int64 / uint64 / double expression trees (literal and variable leaves); doubles as bit patterns incl. ±0, ±inf, NaN, "
+            "subnormals, all five operators incl. unary minus. non-trivial = distinct case whose exact result is within 2^8 of a range "
+            "boundary, or an error outcome, or a double case involving a zero/inf/NaN operand or result, or any tree")
 
     def generate(self, rng: random.Random, tier: str) -> Iterable[Dict[str, Any]]:
         quick = tier == "quick"
@@ -300,6 +303,23 @@ class C01(Prop):
                     cases.append({"kind": ty, "op": op, "a": x, "b": y, "via": rng.choice(ALLVIA)})
                 if signed and a != lo:
                     cases.append({"kind": ty, "op": "add", "a": a, "b": -a, "via": rng.choice(ALLVIA)})
+        # one program evaluated over a SEQUENCE of operand pairs (a result remembered from an earlier evaluation,
+        # or keyed by hash/equality, would show here): operands that collide under CPython's hash (-1/-2, 0/2^61-1,
+        # 1/2^61), that are equal across int/uint, and boundary values, in one process with one program
+        collide = [-1, -2, 0, 2**61 - 1, 1, 2**61, 2, 2**61 + 1, -(2**61 - 1), -(2**61), 3, 7]
+        for ty, signed in (("i", True), ("u", False)):
+            lo, hi = (I_MIN, I_MAX) if signed else (0, U_MAX)
+            pool = [v for v in collide if lo <= v <= hi] + [lo, hi, hi - 1, lo + 1]
+            for op in ("add", "sub", "mul", "div", "mod"):
+                for via in ("I", "C", "dunder"):
+                    for _ in range(2 if quick else 40):
+                        seq = [[rng.choice(pool), rng.choice(pool)] for _ in range(10)]
+                        seq += [[seq[0][0], seq[0][1]], [seq[1][1], seq[1][0]]]
+                        cases.append({"kind": "seq", "ty": ty, "op": op, "via": via, "pairs": seq})
+            # the SAME object on both sides (`x op x`): identity instead of equality, aliasing
+            for a in rng.sample(boundary(signed, small=True), 14) + [lo, hi, 0, 1]:
+                for op in ("add", "sub", "mul", "div", "mod"):
+                    cases.append({"kind": "same", "ty": ty, "op": op, "a": a, "via": rng.choice(["dunder", "I", "C"])})
         # uint expression trees through both runners (literals with the u suffix, or bound variables)
         BU = boundary(False, small=True)
         for _ in range(300 if quick else 6000):
@@ -357,6 +377,38 @@ class C01(Prop):
             env = {}
             src = render_aexpr(c["tree"], env, c["style"])
             return celrun.run(src, c["via"], {k: T(v) for k, v in env.items()})
+        if c["kind"] in ("seq", "same"):
+            T = celtypes.IntType if c["ty"] == "i" else celtypes.UintType
+            f = {"add": operator.add, "sub": operator.sub, "mul": operator.mul, "div": operator.truediv, "mod": operator.mod}[c["op"]]
+            pairs = c["pairs"] if c["kind"] == "seq" else [[c["a"], c["a"]]]
+            same = c["kind"] == "same"
+            outs = []
+            if c["via"] == "dunder":
+                for a, b in pairs:
+                    try:
+                        x = T(a)
+                        r = f(x, x if same else T(b))
+                        outs.append(("int:" if c["ty"] == "i" else "uint:") + str(int(r)) if type(r) is T else f"wrongtype {type(r).__name__}:{r}")
+                    except (ValueError, ZeroDivisionError, TypeError, OverflowError):
+                        outs.append("err")
+                    except Exception as ex:
+                        outs.append("EXC " + type(ex).__name__)
+                return ";".join(outs)
+            import celpy
+            from celpy.evaluation import CELEvalError
+            try:
+                env = celpy.Environment(runner_class=celrun.RUNNERS[c["via"]])
+                prog = env.program(env.compile(f"x {OPSYM[c['op']]} {'x' if same else 'y'}"))
+            except Exception as ex:
+                return "EXC-program " + type(ex).__name__
+            for a, b in pairs:
+                try:
+                    outs.append(celrun.canon(prog.evaluate({"x": T(a)} if same else {"x": T(a), "y": T(b)})))
+                except CELEvalError:
+                    outs.append("err")
+                except Exception as ex:
+                    outs.append("EXC " + type(ex).__name__)
+            return ";".join(outs)
         if c["kind"] == "dx":
             env = {}
             src = render_aexpr(c["tree"], env, 0)
@@ -444,6 +496,8 @@ class C01(Prop):
     def model_line(self, c):
         if c["kind"] == "x":
             return "x " + aexpr_tokens(c["tree"])
+        if c["kind"] in ("seq", "same"):
+            return None
         if c["kind"] == "ux":
             return "ux " + aexpr_tokens(c["tree"])
         if c["kind"] == "dx":
@@ -490,6 +544,21 @@ class C01(Prop):
             if out != exp:
                 return f"{render_aexpr(c['tree'], {}, c['style'])} with {c['tree']} via {c['via']}: exact arithmetic gives {exp}, implementation gave {out}"
             return None
+        if c["kind"] in ("seq", "same"):
+            lo, hi = (I_MIN, I_MAX) if c["ty"] == "i" else (0, U_MAX)
+            tag = "int:" if c["ty"] == "i" else "uint:"
+            pairs = c["pairs"] if c["kind"] == "seq" else [[c["a"], c["a"]]]
+            exps = []
+            for a, b in pairs:
+                e = spec_int(c["op"], a, b, lo, hi, c["ty"] == "i")
+                exps.append("err" if e == "err" else tag + e)
+            exp = ";".join(exps)
+            if out != exp:
+                k = next((i for i, (g, e) in enumerate(zip(out.split(";"), exps)) if g != e), 0)
+                what = "the same object on both sides" if c["kind"] == "same" else f"one program, evaluation #{k + 1} of {len(pairs)}"
+                return (f"{c['ty']} {pairs[k][0]} {c['op']} {pairs[k][1]} via {c['via']} ({what}): expected {exps[k]}, "
+                        f"implementation gave {(out.split(';') + ['?'] * len(exps))[k]}")
+            return None
         if c["kind"] == "ux":
             exp = spec_uexpr(c["tree"])
             exp = "err" if exp is None else f"uint:{exp}"
@@ -532,7 +601,7 @@ class C01(Prop):
         return None
 
     def nontrivial(self, c, out):
-        if c["kind"] in ("x", "ux", "dx"):
+        if c["kind"] in ("x", "ux", "dx", "seq", "same"):
             return True
         if c["kind"] in ("i", "u"):
             if not celrun.is_value(out) or out.startswith("raise"):
